@@ -74,10 +74,13 @@ def run(facts, tr, rep):
         return
     l, ws, init, initdef = ind
     name = b.local_name(l) or "_%d" % l
-    ok_init = init[0] == "const" and init[3] == "0"
+    # the counter counts the retries made so far (starts at 0; continue while c + 1 < N) or the calls made so far (starts at
+    # 1; continue while c < N): with start i0 the test must read c + (1 - i0) < N
+    ok_init = init[0] == "const" and init[3] in ("0", "1")
+    base0 = int(init[3]) if ok_init else 0
     ok_step = all(st == "1" for (_i, _j, st) in ws) and len(ws) == 1
     rep.ob("C05.LOOP-BOUND", skey(b, "induction"), ok_init and ok_step, g.where(ws[0][0], ws[0][1]),
-           "attempt counter `%s` starts at 0 and is incremented by one at a single site in the loop" % name if ok_init and ok_step else
+           "attempt counter `%s` starts at %d and is incremented by one at a single site in the loop" % (name, base0) if ok_init and ok_step else
            "attempt counter `%s`: initial value %s, %d increment site(s) with steps %s" % (name, show(init), len(ws), [s for (_i, _j, s) in ws]))
     inc_bb = ws[0][0]
     # every back-edge path passes the increment exactly once: c unreachable from the await's ready edge without it
@@ -117,8 +120,14 @@ def run(facts, tr, rep):
             if n[0] == "field":
                 n = peel(n[1])
             return n[0] == "binop" and n[1] in ("Add", "AddWithOverflow") and _is_local(tr, b, n[2], l) and peel(n[3])[0] == "const" and peel(n[3])[3] == "1"
-        form_ok = (op == "Lt" and plus_one(x)) or (op == "Gt" and plus_one(y)) or \
-                  (op == "Le" and _plus(tr, b, x, l) == 2) or (op == "Ge" and _plus(tr, b, y, l) == 2)
+        need = 1 - base0
+
+        def plus_k(n, k):
+            if k == 0:
+                return _is_local(tr, b, n, l) and _plus(tr, b, n, l) is None
+            return plus_one(n) if k == 1 else _plus(tr, b, n, l) == k
+        form_ok = (op == "Lt" and plus_k(x, need)) or (op == "Gt" and plus_k(y, need)) or \
+                  (op == "Le" and plus_k(x, need + 1)) or (op == "Ge" and plus_k(y, need + 1))
         bound = y if op in ("Lt", "Le") else x
         bexp = tr.expand(bound, upvars=True, params=True)
         from_req = bool(calls_in(tr, bexp, lambda cc: cc.name == "get_max_attempts"))
